@@ -19,7 +19,7 @@ for c in $CHECKS; do
   out=$(cd $ROOT && GOTRANX_SRC="$WT/src" VERIF_NO_REPRO=1 ./check $c 2>&1)
   rc=$?
   nviol=$(echo "$out" | grep -c '^VIOLATION')
-  first=$(echo "$out" | grep '^# '$c' finding' | head -2 | cut -c1-300 | tr '\n' ' ' | tr '"' "'")
+  first=$(echo "$out" | grep '^# '$c' finding' | head -2 | cut -c1-300 | tr '\n' ' ' | tr '"' "'" | tr -d '\000-\037' | tr '\\' '/')
   echo "check $c: exit=$rc violations=$nviol :: $first"
   RES[$c]="$rc|$nviol|$first"
 done
